@@ -3,7 +3,7 @@ CFG = {
                 "Parsley.Lemmas.InflateReject", "Parsley.Lemmas.InflateFixedBits", "Parsley.Lemmas.InflateFixed",
                 "Parsley.Spec.DeflateFixed", "Parsley.Spec.DeflateDyn", "Parsley.Lemmas.InflateDynHuff",
                 "Parsley.Lemmas.InflateDynHdr", "Parsley.Lemmas.InflateDyn", "Parsley.Props.C06Dyn",
-                "Parsley.Lemmas.InflatePrefix", "Parsley.Props.C06Reject"],
+                "Parsley.Lemmas.InflatePrefix", "Parsley.Props.C06Reject", "Parsley.Spec.ZlibHdr", "Parsley.Props.C06Hdr"],
     "theorems": [
         "Parsley.C06.hex_roundtrip", "Parsley.C06.a85_roundtrip",
         "Parsley.C06.flate_glue_complete", "Parsley.C06.flate_glue_rejects",
@@ -66,6 +66,14 @@ CFG = {
         "Parsley.C06.adler32_one_byte", "Parsley.C06.inflate_stored_data_byte_altered",
         "Parsley.C06.inflate_stored_data_byte_set", "Parsley.C06.flate_stored_data_byte_is_error",
         "Parsley.C06.exZ_ok", "Parsley.C06.exZ_consumed",
+        # C06_8: the two-byte zlib header as a parameter (Spec/ZlibHdr.lean, Props/C06Hdr.lean): the decoder's four tests are RFC 1950's
+        # reading; the pairs it takes are exactly the 32 headers CINFO 0..7 x FLEVEL 0..3 of the spec writer; under each of them it
+        # does what it does under 78 01 (so every round trip / rejection theorem holds for all 32); every other pair is a TransformError
+        "Parsley.C06.hdrOk_eq_legal", "Parsley.C06.header_legal", "Parsley.C06.fcheck_unique", "Parsley.C06.legal_is_header",
+        "Parsley.C06.legal_iff_headers", "Parsley.C06.inflate_header_irrelevant", "Parsley.C06.inflate_illegal_header_rejected",
+        "Parsley.C06.inflate_illegal_header_fields", "Parsley.C06.inflate_storedH_roundtrip", "Parsley.C06.inflate_fixedH_roundtrip",
+        "Parsley.C06.inflate_fixedH_roundtrip_closed", "Parsley.C06.inflate_blocksH_roundtrip", "Parsley.C06.inflate_headerNo_roundtrip",
+        "Parsley.C06.flateDecode_header_irrelevant", "Parsley.C06.flate_blocksH_roundtrip", "Parsley.C06.flate_illegal_header_is_error",
     ],
     "partial": {
         "flate_foreign_encoder_streams (not a theorem)":
@@ -143,14 +151,24 @@ CFG = {
             "boolean, array, reference: payload or TransformError, never another value) + 20 zlib corruptions of a predictor layer; sh: 12 "
             "/Filter x /DecodeParms shapes (5 accepted, 6 rejected, 1 lenient) x chain length 0..3 x 6 parameter variants (two with non-integer values), "
             "unknown filter name at every position; mal: 13 corruptions (illegal char, missing EOD, misaligned z, group "
-            ">= 2^32, truncated zlib, Adler-32 flip, header check, LEN/NLEN or first Huffman code, method; on all four Flate encoders) on outermost and inner layers; `z` EVERYWHERE in an ASCII85 text (180 cases; thorough 360): 1..3 consecutive `z`, "
+            ">= 2^32, truncated zlib, Adler-32 flip, header check, LEN/NLEN or first Huffman code, method; on all five Flate encoders, the odd variants under one of the 32 legal zlib headers; + the header replacement described under ZLIB HEADER) on outermost and inner layers; `z` EVERYWHERE in an ASCII85 text (180 cases; thorough 360): 1..3 consecutive `z`, "
             "bare / after white space / wrapped in white space, after k = 0..4 digits of the first, middle and last group and directly before `~>` (after "
             "complete groups and after a final partial group), over texts with and without white space between the digits and with zero groups spelled `z` "
             "or `!!!!!`, the layer alone or below another one - verdict from the standard's reading of the text (a85Points): at a group boundary each `z` is "
             "four zero bytes at that place of the payload, anywhere else a TransformError; `z` after the EOD marker and the Adobe `<~` prefix before a text "
-            "beginning with `z` (outside ISO 32000-1: payload or TransformError); rz "
+            "beginning with `z` (outside ISO 32000-1: payload or TransformError); "
+            "ZLIB HEADER (RFC 1950 2.2; Spec/ZlibHdr.lean, corpus zlib_headers.case; seed C06_8 accepted only first byte 78): the spec encoders take the two header bytes as a parameter (layer mode = encoder + 8*h) - "
+            "EVERY legal header, CINFO 0..7 (declared window 256..32768 bytes) x FLEVEL 0..3 with the FCHECK completing a multiple of 31, FDICT clear = 32 pairs (08 1D, 08 5B, .. 48 89, .. 78 DA), "
+            "x the five Flate encoders (stored, literal block, two fixed-Huffman LZ77 factorisations, dynamic / mixed plans; self-similar payloads of period 1..5000, the factoriser's candidate distances restricted to the declared window) "
+            "alone under each /Filter spelling (160 cases), below / above ASCIIHex and ASCII85, two Flate layers under two different headers, under a predictor layer (128), on every second Flate layer of the random recipes, shape "
+            "cases and fz mutations and on the odd variants of the five zlib corruptions; the same 32 headers with the factoriser NOT kept inside the window and the period = window + 1 (69 cases; thorough 88: a distance "
+            "beyond the declared window is outside RFC 1950 - payload or TransformError, decided by the judge from the tokens with ZlibHdr.maxDist; zlib's inflate takes them); header REPLACED (corruption F.6.<CMF*256+FLG>) on "
+            "streams whose distances fit the smallest window: the 32 legal pairs (outcome unchanged) and the ILLEGAL NEIGHBOURS, each with a correct FCHECK so that only the named field is at fault - CINFO 8..15 x FLEVEL (32), "
+            "FDICT set on each legal pair (32) and on each CINFO 8..15 pair (32), every CM != 8 x two CINFO (60) - then wrong FCHECKs of every legal pair (quick 3 of the 31 others, thorough all 992) and arbitrary byte pairs (quick 160 drawn, "
+            "thorough ALL 65536), alone / below ASCIIHex / above ASCII85: the verdict is the RFC's reading of the two bytes (ZlibHdr.legal: TransformError unless CM = 8, CINFO <= 7, FDICT clear, multiple of 31) - 446 cases quick, 66716 thorough; rz "
             "(native generator): payloads of 23 boundary sizes 0..100000 (+1 MiB; thorough to 4 MiB) x 5 content kinds "
-            "compressed by the REAL zlib at every level 0-9, and random chains <= 3 with real-zlib Flate layers; fz: random "
+            "compressed by the REAL zlib at every level 0-9, and random chains <= 3 with real-zlib Flate layers; the real zlib with its WINDOW set (deflateInit2 windowBits 9..15: headers 18 xx .. 78 xx) x levels {0,1,6,9} (the four FLEVEL values) "
+            "x payload sizes below / at / above the window, alone and in chains with ASCIIHex / ASCII85 (132 cases; thorough 140); fz: random "
             "bytes and single-byte mutations of valid encodings (correspondence and no-panic only, judged `skip`). "
             "The judge rebuilds dictionary and content from the recipe with the spec encoders, rejects a case whose data "
             "differ, and derives the expected outcome from the recipe. "
@@ -164,8 +182,8 @@ CFG = {
             "Output `<plain output> @ <content start> <content size> <cursor>`: the unchanged code reports all three as cursors of the view (|head|, |content|, |window|). The model parses the window's bytes alone (C05 model parseIndirect, "
             "then decodeStream on what it read: model of a view = model of its window, Parsley.C17.view_refines_copy); the oracle checks that head / tail are the rendering of the case's dictionary, judges the decoder's output from the "
             "recipe exactly as in the plain case, and requires the three cursors; classes of rejected view cases carry the prefix `view-`. CUT family (view only): 4 stream objects (ASCIIHex, ASCII85 over Flate, unfiltered empty, Flate with "
-            "the content `endstream endobj`) x 6 styles cut at every third byte and at each of the last 12 (thorough: EVERY byte), the rest of the object behind the window: must be rejected (`cut-accepted`). Per tier: quick 4434 ordinary + "
-            "4076 view twins + 998 cuts, thorough 22968 + 19054 + 2430. non-trivial = recipe with >= 1 filter layer and a "
+            "the content `endstream endobj`) x 6 styles cut at every third byte and at each of the last 12 (thorough: EVERY byte), the rest of the object behind the window: must be rejected (`cut-accepted`). Per tier: quick 5490 ordinary + "
+            "4809 view twins + 998 cuts, thorough 90246 (65536 of them the sweep of all header byte pairs) + 19804 + 2430. non-trivial = recipe with >= 1 filter layer and a "
             "non-empty payload, or a rejecting shape, or a corruption, or a real-zlib case of >= 16 bytes (a view case counts when there are bytes in front of or behind the window; a cut case always)",
     "trusted_base": COMMON_TB + [
         "modelled from vendored source, not verified: binascii-0.1.4 hex2bin, ascii85-0.2.1 decode (incl. str::trim on the "
@@ -222,6 +240,11 @@ LEVEL = {
             "(inflate_ignores_trailing), any altered trailer byte is a TransformError (inflate_trailer_altered_rejected), also through the glue and "
             "behind correctly encoded outer layers of a chain (decode_stream_flate_truncated_is_error: no partial output reported as success); one "
             "altered data byte of a stored block is caught by the Adler-32 (adler32_one_byte). "
+            "The two-byte zlib header is a parameter of all this (Props/C06Hdr.lean over Spec/ZlibHdr.lean): the decoder's header tests are RFC 1950's reading (hdrOk_eq_legal), the pairs it "
+            "takes are EXACTLY the 32 headers CINFO 0..7 x FLEVEL 0..3 with their unique FCHECK (legal_iff_headers, fcheck_unique), under each of them it computes what it computes under 78 01 "
+            "(inflate_header_irrelevant, flateDecode_header_irrelevant - so every round-trip, truncation and trailer theorem above holds for every window size a conformant encoder may declare: "
+            "inflate_blocksH_roundtrip, inflate_fixedH_roundtrip, inflate_storedH_roundtrip), and every other pair - CINFO 8..15, CM other than 8, FDICT set, wrong FCHECK - is a TransformError "
+            "whatever follows (inflate_illegal_header_rejected, flate_illegal_header_is_error). The model, like zlib's inflate, does not compare LZ77 distances with the DECLARED window. "
             "Bit flips inside Huffman-coded data are NOT covered by a theorem, and the real zlib is an external C library: there the "
             "executable Lean inflate is tied to the real zlib (its own output at levels 0-9, and the spec encoders' stored / fixed / "
             "dynamic output) and the whole model to decode_stream by the correspondence run of every check. Three defects of /repo (Flate truncation at 32 KiB / truncated streams accepted; ASCIIHex "
